@@ -259,6 +259,31 @@ pub fn is_bool_kind(c: &Value) -> bool {
     matches!(c["kind"].as_str(), Some("bdd" | "bcdd" | "zbdd"))
 }
 
+/// Runs a campaign of `cases` generated cases as chunks of at most `per` cases, each chunk in
+/// its own forked child. Campaigns that create one OxiDD manager per case in-process must not
+/// create tens of thousands of them in one process: a manager dropped right after its creation
+/// can leave its collector thread behind (lost wake-up), and the process runs out of threads.
+/// Chunk 0 uses `seed` itself, so campaigns that fit into one chunk are unchanged.
+pub fn chunked(seed: u64, cases: u32, per: u32, rep: &mut Report, f: impl Fn(u64, u32, &mut Report)) {
+    let mut left = cases;
+    let mut i = 0u64;
+    while left > 0 {
+        let n = left.min(per);
+        let s = if i == 0 { seed } else { mix(seed ^ (0xc4_0000 + i)) };
+        let out = isolated(3600, |w| {
+            let mut r = Report::default();
+            f(s, n, &mut r);
+            r.emit(w);
+        });
+        merge_jobs(rep, vec![out], &[format!("chunk {i}")]);
+        left -= n;
+        i += 1;
+        if !rep.viols.is_empty() {
+            break; // like an unchunked campaign: stop at the first failure
+        }
+    }
+}
+
 /// Address-space limit for a forked child that feeds untrusted input to a parser (a runaway
 /// allocation becomes an abort instead of exhausting the machine). Not under AddressSanitizer,
 /// whose shadow memory needs terabytes of address space.
